@@ -12,7 +12,11 @@ VARIABLES i, st, bad, noncanon
 vars == <<i, st, bad, noncanon>>
 
 Empty == [endian |-> "le", data |-> <<>>, text |-> <<>>, ptrs |-> <<>>, labels |-> <<>>, cstr |-> <<>>]
-Init == i = 1 /\ st = Empty /\ bad = <<>> /\ noncanon = <<>>
+\* Two archives may be alive at the same time (events carry "obj"; histories on one object omit it): each object is
+\* its own state machine - nothing done to one archive may show in the other.
+Objs == {0, 1}
+ObjOf(ev) == IF "obj" \in DOMAIN ev THEN ev.obj ELSE 0
+Init == i = 1 /\ st = [o \in Objs |-> Empty] /\ bad = <<>> /\ noncanon = <<>>
 
 \* serialize() after an arbitrary history (C02 "whatever the order of the calls that built them", C01 well-formedness):
 \* when the logged state is inside the domain of the format properties, the image must be well-formed for it,
@@ -27,20 +31,21 @@ SerializeStructOK(s, f) ==
 SerializeCanonOK(s, f) ==
   (BF!ValidContent(s) /\ Len(s.cstr) = 0 /\ (s.endian = "le" \/ BF!BEOrderDetermined(s))) => f = BF!Canon(s)
 
-Accept(ev) ==
+AcceptAt(s, ev) ==
   \/ ev.op = "reset"
-  \/ ev.op = "serialize" /\ ev.post = st /\ (BF!ValidContent(st) => ev.res.ok) /\ (ev.res.ok => SerializeStructOK(st, ev.res.v))
-  \/ ev.op = "session" /\ "steps" \in DOMAIN ev.res /\ SessionAllowed(st, ev.a, ev.steps, ev.res.steps, ev.post)
-  \/ ev.op \notin {"serialize", "session", "reset"} /\ Allowed(st, ev, [res |-> ev.res, pos |-> ev.pos, st |-> ev.post])
+  \/ ev.op = "serialize" /\ ev.post = s /\ (BF!ValidContent(s) => ev.res.ok) /\ (ev.res.ok => SerializeStructOK(s, ev.res.v))
+  \/ ev.op = "session" /\ "steps" \in DOMAIN ev.res /\ SessionAllowed(s, ev.a, ev.steps, ev.res.steps, ev.post)
+  \/ ev.op \notin {"serialize", "session", "reset"} /\ Allowed(s, ev, [res |-> ev.res, pos |-> ev.pos, st |-> ev.post])
+Accept(ev) == AcceptAt(st[ObjOf(ev)], ev)
 \* serialize events whose image is structurally fine but not the canonical image
-NonCanonical(ev) == ev.op = "serialize" /\ ev.res.ok /\ Accept(ev) /\ ~SerializeCanonOK(st, ev.res.v)
+NonCanonical(ev) == ev.op = "serialize" /\ ev.res.ok /\ Accept(ev) /\ ~SerializeCanonOK(st[ObjOf(ev)], ev.res.v)
 
 Next ==
   /\ i <= Len(Rec)
   /\ LET ev == Rec[i] IN
        /\ bad' = IF Accept(ev) THEN bad ELSE Append(bad, i)
        /\ noncanon' = IF NonCanonical(ev) THEN Append(noncanon, i) ELSE noncanon
-       /\ st' = ev.post
+       /\ st' = [st EXCEPT ![ObjOf(ev)] = ev.post]
        /\ i' = i + 1
 Spec == Init /\ [][Next]_vars
 
